@@ -77,8 +77,16 @@ def adv_vc(N, Kp, V, S, width):
                            "y_prev_lens omitted (all prefixes have full length S); finite scores; float arithmetic as real arithmetic"])
 
 
-def adv_p_vc():
-    """P rung: beam_search_advance for SYMBOLIC batch size N, old width K', vocabulary V, prefix length S and beam width (all prefixes
+def divmod_of(J, A0, V0, V, KP):
+    return z3.And(J / V == A0, J % V == V0, 0 <= J, J < KP * V)
+
+
+def adv_p_vc(with_lens=False):
+    """`with_lens`: the form BeamSearch.forward uses - prefix lengths given (0 <= length <= S, any mixture) and previous scores that may
+    be -inf (slots holding no path): the slot's new token is written at position length[source] (the rows below it are the source's),
+    its length is length[source] + 1 (rows beyond it are not part of the path), its score is -inf exactly when the source's is and otherwise the chained sum; the path tensor
+    grows by one row exactly when some length equals S.
+    P rung: beam_search_advance for SYMBOLIC batch size N, old width K', vocabulary V, prefix length S and beam width (all prefixes
     of full length: y_prev_lens omitted). top-k over a symbolic extent has the assumed contract of vf/pyvc/symtensor.py (in-range,
     pairwise distinct indices; value = element at the index; non-increasing; unselected <= last selected). For a skolem batch element
     and skolem slots: a slot below K = min(width, K' V) holds source s = index div V and token w = index mod V with
@@ -90,23 +98,38 @@ def adv_p_vc():
     N, KP, V, S, W, N0, K0, K1, T0, A0, V0 = z3.Ints("N old_width V S width n0 k0 k1 t0 a0 v0")
     LT = z3.Function("step_log_prob", z3.IntSort(), z3.IntSort(), z3.IntSort(), z3.RealSort())
     LP = z3.Function("prev_log_prob", z3.IntSort(), z3.IntSort(), z3.RealSort())
+    LPNINF = z3.Function("prev_log_prob_is_minus_inf", z3.IntSort(), z3.IntSort(), z3.BoolSort())
+    LEN = z3.Function("y_prev_lens", z3.IntSort(), z3.IntSort(), z3.IntSort())
+    n_, k_ = z3.Ints("n_q k_q")
+    len_ok = lambda n, k: z3.Implies(z3.And(0 <= n, n < N, 0 <= k, k < KP), z3.And(0 <= LEN(n, k), LEN(n, k) <= S))
     Y = z3.Function("y_prev", z3.IntSort(), z3.IntSort(), z3.IntSort(), z3.IntSort())
     KK = z3.If(W <= KP * V, W, KP * V)
-    name = "beam_search_advance[symbolic N, old width, V, S, width; full-length prefixes]"
+    name = "beam_search_advance[symbolic N, old width, V, S, width; %s]" % ("prefix lengths given, previous scores possibly -inf" if with_lens else "full-length prefixes")
 
     def thunk(I):
         I.stubs.update(stn.stubs())
         lt = stn.ST((N, KP, V), lambda a, b, c: LT(ip.to_z3(a), ip.to_z3(b), ip.to_z3(c)), "float")
-        lp = stn.ST((N, KP), lambda a, b: LP(ip.to_z3(a), ip.to_z3(b)), "float")
+        lp = stn.ST((N, KP), (lambda a, b: ct.NegGuarded(LPNINF(ip.to_z3(a), ip.to_z3(b)), LP(ip.to_z3(a), ip.to_z3(b)))) if with_lens else (lambda a, b: LP(ip.to_z3(a), ip.to_z3(b))), "float")
         y = stn.ST((S, N, KP), lambda a, b, c: Y(ip.to_z3(a), ip.to_z3(b), ip.to_z3(c)), "long")
+        lens_in = stn.ST((N, KP), lambda a, b: LEN(ip.to_z3(a), ip.to_z3(b)), "long") if with_lens else None
+        if with_lens:
+            I.ex.ghost["skolem_hooks"] = [lambda ii: [len_ok(a, c) for a in ii for c in ii if a is not c]]
+            I.ex.ghost["any_points"] = {2: [(N0, K0), (N0, K1)]}
 
         def trunc_divide(I2, a, k):
             x, d = a
             return x._bin(I2, __import__("ast").FloorDiv(), d, False)  # indices are non-negative: trunc = floor
 
         I.contracts["pydrobert.torch._compat.trunc_divide"] = trunc_divide
-        out = I.call(D.beam_search_advance, [lt, W, lp, y, None], {})
+        out = I.call(D.beam_search_advance, [lt, W, lp, y, lens_in], {})
         tk = I.ex.ghost["topks"][-1]
+        if with_lens:
+            for mx in I.ex.ghost.get("maxes", []):
+                for x in (mx["ub"](N0, tk["IDX"](N0, K0) / V), mx["ub"](N0, tk["IDX"](N0, K1) / V)):
+                    I.ex.instance(x)
+            for x in (len_ok(N0, tk["IDX"](N0, K0) / V), len_ok(N0, tk["IDX"](N0, K1) / V)) + tuple(len_ok(w_[0], w_[1]) for mx in I.ex.ghost.get("maxes", []) for w_ in [mx["argmax"]] if isinstance(w_, list)):
+                I.ex.instance(x)
+            I.ex.ghost["maxes_"] = I.ex.ghost.get("maxes", [])
         for x in (tk["at"](N0, K0), tk["at"](N0, K1), tk["distinct"](N0, K0, K1), tk["distinct"](N0, K1, K0), tk["ordered"](N0, K0, K1), tk["ordered"](N0, K0, KK - 1)):
             I.ex.instance(x)
         I.ex.instance(tk["optimal"](N0, A0 * V + V0), quantified_atoms=True)  # its "not selected" premise recurs verbatim in the goal
@@ -128,6 +151,27 @@ def adv_p_vc():
                         ip.to_z3(lens.shape[1]) == W, ip.to_z3(src.shape[1]) == W)
         J = A0 * V + V0
         cand_ok = z3.And(0 <= A0, A0 < KP, 0 <= V0, V0 < V)
+        if with_lens:
+            ninf = lambda k: (lambda f_: f_ if ip.is_z3(f_) else z3.BoolVal(bool(f_)))(ct.ng_split(lpn.elem(N0, k))[0])
+            mxs = p.ghost.get("maxes_", [])
+            rows = ip.to_z3(y_next.shape[0])
+            tok0, tok1 = tk["IDX"](N0, K0) % V, tk["IDX"](N0, K1) % V
+            src0, src1 = tk["IDX"](N0, K0) / V, tk["IDX"](N0, K1) / V
+            # rows beyond the slot's new length are not part of its path (whatever they hold)
+            cell = lambda t, k, sr, tk_: z3.Implies(t <= LEN(N0, sr), ip.to_z3(y_next.elem(t, N0, k)) == z3.If(t == LEN(N0, sr), tk_, Y(t, N0, sr)))
+            return [("result_shapes", z3.And(ip.to_z3(y_next.shape[1]) == N, ip.to_z3(y_next.shape[2]) == W, ip.to_z3(lpn.shape[0]) == N, ip.to_z3(lpn.shape[1]) == W, ip.to_z3(lens.shape[1]) == W, ip.to_z3(src.shape[1]) == W,
+                                             z3.Or(rows == S, rows == S + 1))),
+                    ("path_tensor_grows_exactly_when_some_prefix_is_full", z3.And(z3.Implies(z3.And(0 <= A0, A0 < KP, LEN(N0, A0) == S), rows == S + 1),
+                                                                                 z3.Implies(rows == S + 1, z3.And([z3.And(0 <= mx["argmax"][0], mx["argmax"][0] < N, 0 <= mx["argmax"][1], mx["argmax"][1] < KP, LEN(mx["argmax"][0], mx["argmax"][1]) == S) for mx in mxs if isinstance(mx["argmax"], list)] or [z3.BoolVal(False)])))),
+                    ("index_of_a_candidate_splits_back_into_source_and_token", z3.Implies(cand_ok, divmod_of(J, A0, V0, V, KP))),
+                    ("slot_reports_its_source", z3.Implies(real0, z3.And(ip.to_z3(src.elem(N0, K0)) == src0, 0 <= src0, src0 < KP, 0 <= tok0, tok0 < V))),
+                    ("slot_score_is_minus_inf_exactly_when_the_source_is", z3.Implies(real0, ninf(K0) == LPNINF(N0, src0))),
+                    ("slot_score_is_the_chained_sum", z3.Implies(z3.And(real0, z3.Not(LPNINF(N0, src0))), sc(K0) == LP(N0, src0) + LT(N0, src0, tok0))),
+                    ("slot_length_is_the_source_length_plus_one", z3.Implies(real0, z3.And(ip.to_z3(lens.elem(N0, K0)) == LEN(N0, src0) + 1, LEN(N0, src0) < rows))),
+                    ("slot_path_is_the_source_path_with_the_token_at_its_length", z3.Implies(z3.And(real0, 0 <= T0, T0 < rows), cell(T0, K0, src0, tok0))),
+                    ("different_slots_hold_different_candidates", z3.Implies(z3.And(real0, real1, K0 != K1), z3.Or(src0 != src1, tok0 != tok1))),
+                    ("best_first", z3.Implies(z3.And(real0, real1, K0 <= K1), z3.And(z3.Implies(ninf(K0), ninf(K1)), z3.Implies(z3.And(z3.Not(ninf(K0)), z3.Not(ninf(K1))), sc(K0) >= sc(K1))))),
+                    ("slots_beyond_the_candidates_are_fillers", z3.Implies(z3.And(KK <= K0, K0 < W), z3.And(ninf(K0), ip.to_z3(lens.elem(N0, K0)) == 0)))]
         divmod = z3.And(J / V == A0, J % V == V0, 0 <= J, J < KP * V)
         return [("result_shapes", shapes),
                 ("index_of_a_candidate_splits_back_into_source_and_token", z3.Implies(cand_ok, divmod)),
@@ -139,7 +183,7 @@ def adv_p_vc():
                 ("no_unselected_candidate_beats_a_selected_one", z3.Implies(z3.And(real0, cand_ok, divmod, tk["notsel"](N0, J)), LP(N0, A0) + LT(N0, A0, V0) <= sc(K0))),
                 ("slots_beyond_the_candidates_are_fillers", z3.Implies(z3.And(KK <= K0, K0 < W), z3.And(z3.Not(fin(K0)), ip.to_z3(lens.elem(N0, K0)) == 0)))]
 
-    pre = [N >= 1, KP >= 1, V >= 1, S >= 0, W >= 1, 0 <= N0, N0 < N]
+    pre = [N >= 1, KP >= 1, V >= 1, S >= (1 if with_lens else 0), W >= 1, 0 <= N0, N0 < N] + ([z3.ForAll([n_, k_], len_ok(n_, k_))] if with_lens else [])
     return VC("C04.P.advance_step", name, M, "beam_search_advance", thunk, pre=pre, posts=[("advance_postcondition", post)], inputs={"N": N, "old_width": KP, "V": V, "S": S, "width": W},
               timeout_ms=60000, twins=[("token_is_always_zero", lambda p: z3.Implies(z3.And(0 <= K0, K0 < KK), ip.to_z3(p.value[0].elem(S, N0, K0)) == 0) if api.returns(p) else None)],
               assumptions=["topk over a symbolic extent: in-range pairwise distinct indices, value = element at the index, non-increasing, unselected <= last selected (assumed contract, no tie rule)",
@@ -148,7 +192,7 @@ def adv_p_vc():
 
 
 def p_vcs(ctx):
-    return [adv_p_vc()]
+    return [adv_p_vc(), adv_p_vc(with_lens=True)]
 
 
 def vcs(ctx):
